@@ -44,7 +44,7 @@ WALL_LIMIT = {('C02', 'quick'): 240, ('C02', 'thorough'): 240}
 PROBES = {
     'C01': ['page_with_over_1000_links', 'linked_and_embedded', 'cycle', 'diamond', 'self_link', 'duplicate_link', 'alt_spelling', 'redirect', 'requisites', 'css_url', 'concurrency>1',
             'depth_limited', 'no_parent', 'regex', 'multi_start', 'redirect_target_also_linked', 'depth_race_possible', 'keepalive_off'],
-    'C02': ['robots_fetch_failed', 'robots_redirected_out', 'robots_redirect_followed', 'offered_foreign_host', 'offered_upward_path', 'offered_deep', 'offered_regex_rejected', 'offered_excluded_dir',
+    'C02': ['ftp_scope_variant', 'ftp_glob', 'ftp_file_fetched', 'robots_fetch_failed', 'robots_redirected_out', 'robots_redirect_followed', 'offered_foreign_host', 'offered_upward_path', 'offered_deep', 'offered_regex_rejected', 'offered_excluded_dir',
             'offered_rejected_suffix', 'cross_host_redirect', 'waiver_used', 'retry', 'requests_attributed', 'span_hosts_allow',
             'domains', 'hostnames', 'https_only', 'tries'],
     'C20': ['robots_disallow', 'robots_allow_all', 'robots_404', 'robots_5xx', 'robots_redirect', 'robots_redirect_to_other_origin', 'robots_with_non_utf8_bytes', 'robots_big', 'robots_netfault', 'tag_options', 'sitemaps_option', 'nofollow_page',
@@ -831,6 +831,11 @@ def run(tape, prop, tier):
         if prop == 'C20':
             from harness import robots as hrobots
             return hrobots.run_c20(tape, r, tier, sandbox)
+        if prop == 'C02' and tape.chance(1, 10, 'ftp_variant'):
+            from harness import ftpscope
+            rr = ftpscope.run(tape, r, tier, sandbox)
+            rr.sub = 'ftp'
+            return rr
         if prop == 'C02' and tape.chance(1, 8, 'resumed_history'):
             # resumed histories (kill, then the same command again) are judged by the same monitor
             os.chdir(cwd)
